@@ -68,7 +68,7 @@ add(
 add(
     "C18",
     "exploration",
-    "Generated scripts of Reporter calls, noise and must-be-rejected reports, emitted through the real Reporter, written to a "
+    "Generated scripts of Reporter calls, noise and must-be-rejected reports (reserved keys, unserialisable values or keys, oversize), emitted through the real Reporter, written to a "
     "file and parsed by the real retrieve(); oracle: parsed list == accepted reports (structural, NaN-aware, bit-exact floats). "
     "~8e4 scripts quick, ~1.9e6 thorough.",
     "Clock of syne_tune.report replaced by a harness clock; noise never contains the tag; JSON-native value trees plus numpy scalars.",
@@ -81,7 +81,7 @@ add(
     "exploration",
     "Generated point sets against brute-force dominance / layer peeling (plus complete enumeration of all 2-D sets with N<=4 on a "
     "3x3 grid), and generated MOASHA runs (reduction factor, grace period, brackets, mode lists, three priorities, report "
-    "interleavings) against a reference rung model; a decision is a violation only if no layer-consistent order justifies it.",
+    "interleavings, results reported with shuffled key order) against a reference rung model; a decision is a violation only if no layer-consistent order justifies it.",
     "Trials report consecutive levels; order inside a Pareto layer is free; brackets are read from the scheduler's trial->bracket map.",
     "property-based testing (Hypothesis choice tape) + exhaustive enumeration of a small sub-space: brute-force reference model",
     "DESIGN.md 6/C19",
@@ -169,7 +169,7 @@ add(
     "C12",
     "exploration",
     "Real Tuner in the simulator and over the scripted file back-end with generated stopping criteria (all count fields, wall-clock on "
-    "the harness / simulated clock, metric thresholds, combinations), flags, failures, failure limits, finite spaces and an injected "
+    "the harness / simulated clock, metric thresholds incl. thresholds on never-reported metrics, combinations), flags, failures, NaN metric values, failure limits, finite spaces and an injected "
     "scheduler exception; every evaluation of the criterion by the loop is recorded and compared with the monitor's own recomputation "
     "from independent counts; no iteration / no start after the criterion held; bounded overshoot; after run(): nothing alive, results "
     "file complete, TuningStatus counters == states from the history. 1.8e4 runs quick, 3.5e5 thorough.",
@@ -208,7 +208,7 @@ add(
     "C15",
     "exploration",
     "Twin executions in lockstep (mode=min on f vs mode=max on -f, same arguments, seeds and tape-chosen events) for FIFO random/grid, all "
-    "Hyperband variants, synchronous Hyperband, DEHB, PBT, regularised evolution, median rule and MOASHA with mode lists, plus whole "
+    "Hyperband variants incl. RUSH, synchronous Hyperband, DEHB, PBT, regularised evolution, median rule and MOASHA with mode lists, plus whole "
     "simulated Tuner runs on f / -f tables; suggestions, decisions, delivery histories and Tuner.best_config must be identical. Pairs in "
     "which a rung cut-off lies within round-off of a metric value are dropped and counted (the property's caveat). 1.9e4 pairs quick, 3.6e5 thorough.",
     "Metric values are distinct by construction. GP-based searchers are outside the property's quantifier. The cut-off-coincidence filter "
@@ -224,7 +224,7 @@ add(
     "Python's global generators re-seeded differently before every call of either twin and unrelated instances constructed and driven "
     "in between; plus fresh-process twins: the same scenario tape (protocol history incl. GP searchers, or a whole simulated Tuner run) "
     "replayed in two child processes with different PYTHONHASHSEED and global seeds; traces / result tables must be identical. "
-    "1.6e4 twin histories + 48 child pairs quick, 3e5 + 800 thorough.",
+    "Half of the child pairs replay a batch of 8 model-free scenarios (import cost paid once). 1.6e4 twin histories + 48 child pairs quick, 3e5 + 800 thorough.",
     "MOASHA (no random_seed) and per-trial back-end seeds (seed=None draws from the global generator by design) are outside the quantifier.",
     "property-based testing (Hypothesis choice tape): metamorphic twins under global-RNG / hash-seed perturbation, fresh-process replay",
     "DESIGN.md 6/C11",
@@ -252,8 +252,8 @@ add(
     "Generated fault placement: on_trial_error injected at any point of any trial's life for every scheduler / searcher family (incl. GP "
     "single- and multi-fidelity) through the protocol driver, and failing / externally stopped jobs under the real Tuner over the scripted "
     "back-end with max_failures 0..5. Oracle: no scheduler call raises after a failure, no failed trial resumed, failed configuration not "
-    "re-suggested, other trials' pending evaluations / rung entries / bracket slots unchanged across on_trial_error, exactly one "
-    "on_trial_error per failed run, failure limit enforced with an error naming a failed trial. 1.4e4 histories + 480 GP + 6e3 Tuner runs quick. "
+    "re-suggested (also with allow_duplicates=True, where only failed configurations stay black-listed), the failed trial's own pending evaluations gone, other trials' pending evaluations / rung entries / bracket slots unchanged across on_trial_error, exactly one "
+    "on_trial_error per failed run, failure limit enforced with an error naming a failed trial. 1.4e4 histories + 640 GP + 6e3 Tuner runs quick. "
     "In addition a complete enumeration of a small scope: per model-free family, two deterministic schedules x 2 seeds x 2 worker counts, every "
     "set of <= 2 (thorough <= 3) failure placements on a (trial) x (report index over the trial's life) grid: 1.1e4 quick, 2.1e5 thorough.",
     "Fault positions are enumerated completely only inside the stated small scope; beyond it they are generated (Hypothesis). Three listed known findings "
